@@ -7,9 +7,9 @@ from impl import pipeline, recbuilder
 from props import codegen_common as cg
 
 LEVEL = 'proof'
-MODULES = ['Pysmi.Props.C04']
-LAKE_TARGETS = ['Pysmi.Props.C04']
-THEOREMS = ['Pysmi.Pysnmp.C04_sort_perm', 'Pysmi.Pysnmp.C04_sort_stable', 'Pysmi.Pysnmp.C04_sort_sorted', 'Pysmi.Pysnmp.C04_types_keep_dependency_order',
+MODULES = ['Pysmi.Props.C04', 'Pysmi.Pins.SkelC04']
+LAKE_TARGETS = ['Pysmi.Props.C04', 'Pysmi.Pins.SkelC04']
+THEOREMS = ['Pysmi.Pins.SkelC04.pin_pysnmpGenCode', 'Pysmi.Pysnmp.C04_sort_perm', 'Pysmi.Pysnmp.C04_sort_stable', 'Pysmi.Pysnmp.C04_sort_sorted', 'Pysmi.Pysnmp.C04_types_keep_dependency_order',
             'Pysmi.Pysnmp.C04_imports_expand', 'Pysmi.Generated.Pysnmp.C04_exported_classes', 'Pysmi.Generated.Pysnmp.C04_export_filter_complete',
             'Pysmi.Generated.Pysnmp.pin_smiObjects', 'Pysmi.Generated.Text.C04_setter_keys', 'Pysmi.Generated.Text.C04_status_written']
 TECHNIQUE = ('Lean 4 theorems about a model of the pure steps of PySnmpCodeGen.genCode (SMI_OBJECTS expansion of imports, dotted OID -> '
